@@ -34,6 +34,10 @@ CLAIMED = {
          "Deductive proof for every subscription table and VAA: in each iteration Publish sends on the subscriber's channel iff the subscriber has no filters or a filter equal to the VAA's emitter chain and address, the bytes sent are the published bytes and no other subscriber's channel is touched. The independence clause is the non-blocking obligation on the two sends under subsMu; both fail on the current tree and are recorded as known findings (replayed on the real code: a stalled subscriber blocks Publish and the mutex).",
          "Trusted: govc, SMT solvers; vaa.Unmarshal through its verified contract; sync.Mutex not modelled (only 'a send under it must not block'); gRPC stream fairness not modelled. Duplicate delivery when two filters match is not excluded by the statement and not checked.",
          "DESIGN.md §3-C20"),
+ "C14": ("per-entry transition contract of handleCleanup (range over the aggregation map; old() = head of the iteration; symbolic monotone clock), frame clauses for the other entries, contract on PostObservationRequest; SMT",
+         "Deductive proof for every aggregation state, store content and clock history: an entry is removed only if late-with-stored-VAA, submitted and an hour old, retry budget exhausted, or never observed after five minutes; an own unsubmitted message is never discarded before its budget unless a quorum VAA is stored; a retry happens only >= 5 min after the previous one, re-broadcasts the node's own observation and bumps the counter by one; when due, retry / expiry / drop does happen; other entries are untouched.",
+         "Trusted: govc, SMT solvers; assumed ghost-store contracts of db.GetSignedVAABytes (verified separately under C12 where claimed); time.Since/Now on a ghost monotone clock, Duration.Hours/Minutes as exact reals; ticks are assumed to keep arriving (the bounded-lifetime conclusion follows from the proved per-tick relation: retryCount strictly increases towards the budget); the goroutine sending the miss notification is not executed.",
+         "DESIGN.md §3-C14"),
 }
 
 NA = {
